@@ -187,10 +187,18 @@ Proof.
     + rewrite Hb1. reflexivity.
 Qed.
 
-Theorem test (h : heap) (x y : nat) (xv yv gy : T) fuel depth :
+Ltac zsimp := cbn [Z.eqb Pos.eqb negb].
+
+Theorem heap_r_Broadcast (h : heap) (x y : nat) (xv yv gy : T) fuel depth :
   (x < length h)%nat -> (y < length h)%nat -> valOf h x = Some xv -> valOf h y = Some yv -> gradOf h y = Some gy ->
   (length (dims yv) + 1 < fuel)%nat ->
-  drun fapp heap (hext rd) r_Broadcast_closure fuel depth [DI (Z.of_nat x); DI (Z.of_nat y)] h = DPanic _.
+  match bcastBack RedAvg gy (dims xv) (dims yv) with
+  | Ok r => exists g l, drun fapp heap (hext rd) r_Broadcast_closure fuel depth [DI (Z.of_nat x); DI (Z.of_nat y)] h =
+                        DRet heap [embT r; DI 0] h g l
+  | Err => exists g l, drun fapp heap (hext rd) r_Broadcast_closure fuel depth [DI (Z.of_nat x); DI (Z.of_nat y)] h =
+                       DRet heap [DNil; DI 1] h g l
+  | Panic => drun fapp heap (hext rd) r_Broadcast_closure fuel depth [DI (Z.of_nat x); DI (Z.of_nat y)] h = DPanic heap
+  end.
 Proof.
   intros Hx Hy Hxv Hyv Hgy Hfuel.
   unfold drun, r_Broadcast_closure. cbn [pmain dbody plocals dparams dbind]. dxs.
@@ -198,7 +206,444 @@ Proof.
   rewrite (hext_Shape h x xv Hx Hxv). dxs.
   rewrite (hext_Shape h y yv Hy Hyv). dxs.
   unfold dnats. dxs. rewrite !dlen_map. dxs.
-  Show.
-Abort.
+  set (sd := dims xv) in *. set (dd := dims yv) in *.
+  (* ---- first loop ---- *)
+  match goal with |- context [dforLoop heap fuel ?c ?b ?p h ?g0 []] =>
+    pose proof (bc_loop1 c b p h x y sd dd) as HL1; change g0 with (bcEnv x y sd dd 0 (embT gy) (Z.of_nat 0))
+  end.
+  match type of HL1 with ?P -> _ => assert (H1 : P) end.
+  { intros e gyv i. unfold bcEnv. cbn [vlookup dlookup String.eqb Ascii.eqb Bool.eqb devalBin]. reflexivity. }
+  specialize (HL1 H1); clear H1.
+  match type of HL1 with ?P -> _ => assert (H1 : P) end.
+  { intros g0 i. unfold bcEnv. dxs. rewrite hext_AvgAlong. unfold redAlong.
+    destruct (v_reduceAlong RdAvg g0 0) as [g1| |]; cbn [retT obind]; dxs; zsimp; dxs.
+    - reflexivity.
+    - eauto.
+    - reflexivity. }
+  specialize (HL1 H1); clear H1.
+  match type of HL1 with ?P -> _ => assert (H1 : P) end.
+  { intros s g l. dxs. reflexivity. }
+  specialize (HL1 H1 (length dd - length sd)%nat 0%nat gy fuel); clear H1.
+  unfold bcastBack.
+  assert (Hlead : (length dd - length sd <= length dd)%nat) by lia.
+  specialize (HL1 eq_refl ltac:(lia)).
+  destruct (bcLead RedAvg (length dd - length sd) gy) as [g1| |]; cbn [res_bind].
+  2:{ destruct HL1 as [g [l HL1]]. rewrite HL1. eauto. }
+  2:{ rewrite HL1. reflexivity. }
+  rewrite HL1. clear HL1. unfold bcEnv. dxs.
+  (* ---- second loop ---- *)
+  match goal with |- context [dforLoop heap fuel ?c ?b ?p h ?g0 []] =>
+    pose proof (bc_loop2 c b p h x y sd dd) as HL2;
+    change g0 with (bcEnv2 x y sd dd 0 (embT g1) (Z.of_nat (length dd - length sd)) (Z.of_nat 0))
+  end.
+  match type of HL2 with ?P -> _ => assert (H1 : P) end.
+  { intros e gyv i j. unfold bcEnv2. cbn [vlookup dlookup String.eqb Ascii.eqb Bool.eqb devalBin]. reflexivity. }
+  specialize (HL2 H1); clear H1.
+  match type of HL2 with ?P -> _ => assert (H1 : P) end.
+  { intros g0 i j s d Hs Hd. unfold bcEnv2. dxs.
+    rewrite !didx_nat, !nth_error_dnats, Hs, Hd. cbn [option_map]. dxs.
+    replace (Z.of_nat s =? Z.of_nat d) with (s =? d)%nat.
+    2:{ destruct (Nat.eqb_spec s d) as [E|E]; symmetry; [apply Z.eqb_eq | apply Z.eqb_neq]; lia. }
+    destruct (s =? d)%nat; cbn [negb]; dxs.
+    - reflexivity.
+    - rewrite hext_AvgAlong. unfold redAlong.
+      destruct (v_reduceAlong RdAvg g0 (Z.of_nat j)) as [g2| |]; cbn [retT obind res_bind]; dxs; zsimp; dxs.
+      + rewrite hext_UnSqueeze.
+        destruct (v_unsqueeze g2 (Z.of_nat j)) as [g3| |]; cbn [retT obind res_bind]; dxs; zsimp; dxs.
+        * reflexivity.
+        * eauto.
+        * reflexivity.
+      + eauto.
+      + reflexivity. }
+  specialize (HL2 H1); clear H1.
+  match type of HL2 with ?P -> _ => assert (H1 : P) end.
+  { intros s g l. dxs. reflexivity. }
+  specialize (HL2 H1 (skipn (length dd - length sd) dd) sd (length dd - length sd)%nat 0%nat g1 fuel eq_refl eq_refl); clear H1.
+  rewrite skipn_length in HL2.
+  specialize (HL2 ltac:(lia) ltac:(lia)).
+  destruct (bcDims RedAvg 0 sd (skipn (length dd - length sd) dd) g1) as [g2| |].
+  - destruct HL2 as [gE [HL2 Hg]]. rewrite HL2. dxs.
+    unfold vlookup in Hg. cbn [dlookup] in Hg. rewrite Hg. eauto.
+  - destruct HL2 as [g [l HL2]]. rewrite HL2. eauto.
+  - rewrite HL2. reflexivity.
+Qed.
+
+(* under the hypotheses of the theorem the model's rule of the Broadcast edge IS that value *)
+Lemma eval_rule_RBroadcast (rd' : bred) (h : heap) (x y : nat) (xv yv gy : T) :
+  valOf h x = Some xv -> valOf h y = Some yv -> gradOf h y = Some gy ->
+  eval_rule rd' h (RBroadcast y x) = bcastBack rd' gy (dims xv) (dims yv).
+Proof. intros Hxv Hyv Hgy. cbn [eval_rule]. unfold gy_of, val_of. rewrite Hgy, Hxv, Hyv. reflexivity. Qed.
+
+(* the closure body returns exactly what the oracle's ["gradFn"] hands out for the rule [RBroadcast y x] evaluated with
+   the AVERAGING reduction (known finding D2): [retT (eval_rule RedAvg h (RBroadcast y x))] *)
+Corollary heap_r_Broadcast_eval_rule (h : heap) (x y : nat) (xv yv gy : T) fuel depth :
+  (x < length h)%nat -> (y < length h)%nat -> valOf h x = Some xv -> valOf h y = Some yv -> gradOf h y = Some gy ->
+  (length (dims yv) + 1 < fuel)%nat ->
+  match retT (eval_rule RedAvg h (RBroadcast y x)) with
+  | Some vs => exists g l, drun fapp heap (hext rd) r_Broadcast_closure fuel depth [DI (Z.of_nat x); DI (Z.of_nat y)] h =
+                           DRet heap vs h g l
+  | None => drun fapp heap (hext rd) r_Broadcast_closure fuel depth [DI (Z.of_nat x); DI (Z.of_nat y)] h = DPanic heap
+  end.
+Proof.
+  intros Hx Hy Hxv Hyv Hgy Hfuel.
+  rewrite (eval_rule_RBroadcast RedAvg h x y xv yv gy Hxv Hyv Hgy).
+  pose proof (heap_r_Broadcast h x y xv yv gy fuel depth Hx Hy Hxv Hyv Hgy Hfuel) as H.
+  destruct (bcastBack RedAvg gy (dims xv) (dims yv)); cbn [retT]; exact H.
+Qed.
+
+(* ================= (2) the Concat constructor ================= *)
+
+Definition encRanges (idx : list zrange) : dval := DL (map (fun r : zrange => DR (fst r) (snd r)) idx).
+(* an edge built by Concat: target, index of the closure in the constructor (one closure: 0), its captured [index] *)
+Definition encCatEdge (e : nat * @rule A) : dval :=
+  match snd e with
+  | RConcat _ idx => DL [DI (Z.of_nat (fst e)); DI 0; encRanges idx]
+  | _ => DNil
+  end.
+Definition encCatCtx (c : bool * bool * list (nat * @rule A)) : dval :=
+  let '(tr, di, es) := c in DL [DB tr; DB di; DL (map encCatEdge es)].
+
+Lemma mapM_nodeId (h : heap) (xs : list nat) :
+  Forall (fun x => (x < length h)%nat) xs -> mapM (nodeId h) (map (fun n => @DI A (Z.of_nat n)) xs) = Some xs.
+Proof.
+  induction 1 as [|x xs Hx _ IH]; [reflexivity|]. cbn [map mapM]. rewrite (nodeId_nat h x Hx), IH. reflexivity.
+Qed.
+
+Lemma hext_anyIsBPDirty (h : heap) (xs : list nat) : Forall (fun x => (x < length h)%nat) xs ->
+  hext rd "anyIsBPDirty" [DL (map (fun n => DI (Z.of_nat n)) xs)] h = Some ([DB (existsb (dirtyOf h) xs)], h).
+Proof. intros H. unfold hext. cbn [String.eqb Ascii.eqb Bool.eqb]. rewrite (mapM_nodeId h xs H). reflexivity. Qed.
+Lemma hext_nonIsTracked (h : heap) (xs : list nat) : Forall (fun x => (x < length h)%nat) xs ->
+  hext rd "nonIsTracked" [DL (map (fun n => DI (Z.of_nat n)) xs)] h = Some ([DB (negb (existsb (trackedOf h) xs))], h).
+Proof. intros H. unfold hext. cbn [String.eqb Ascii.eqb Bool.eqb]. rewrite (mapM_nodeId h xs H). reflexivity. Qed.
+
+
+Definition ccEnv (y : dval) (xs : list nat) (dim : nat) (be : list dval) (base i : Z) (tail : denv) : denv :=
+  ("y", y) :: ("xs", DL (map (fun n => DI (Z.of_nat n)) xs)) :: ("dim", DI (Z.of_nat dim)) :: ("gctx", DNil) ::
+  ("$1", DB false) :: ("$2", DB false) :: ("backEdges", DL be) :: ("base", DI base) :: ("i", DI i) :: tail.
+(* "shape" and "index" are declared inside the loop body: absent before the first iteration *)
+Definition tailOK (tail : denv) : Prop := tail = [] \/ exists s ix, tail = [("shape", s); ("index", ix)].
+
+Definition catIndex (dim : nat) (xv : T) (base : Z) : list zrange :=
+  map (fun i => if (i =? dim)%nat then (base, base + Z.of_nat (nth dim (dims xv) 0%nat)) else (0, 0)) (seq 0 (length (dims xv))).
+
+Lemma concatEdges_cons (yn dim : nat) x (xv : T) rest base :
+  concatEdges yn dim ((x, xv) :: rest) base =
+  (x, RConcat yn (catIndex dim xv base)) :: concatEdges yn dim rest (base + Z.of_nat (nth dim (dims xv) 0%nat)).
+Proof. reflexivity. Qed.
+
+Lemma setNthD_app (pre : list dval) a r v : setNthD (pre ++ a :: r) (length pre) v = Some (pre ++ v :: r).
+Proof. induction pre as [|p pre IH]; cbn; [reflexivity|]. cbn in IH. rewrite IH. reflexivity. Qed.
+
+Lemma map_seq_const {X} (f : nat -> X) (z : X) n : forall o, (forall i, (o <= i)%nat -> f i = z) -> map f (seq o n) = repeat z n.
+Proof.
+  induction n as [|n IH]; intros o H; [reflexivity|]. cbn. rewrite (H o (le_n o)). f_equal. apply IH. intros i Hi. apply H. lia.
+Qed.
+
+Lemma setNthD_repeat (z v : dval) n : forall d o, (d < n)%nat ->
+  setNthD (repeat z n) d v = Some (map (fun i => if (i =? o + d)%nat then v else z) (seq o n)).
+Proof.
+  induction n as [|n IH]; intros d o Hd; [lia|]. destruct d as [|d]; cbn [repeat setNthD seq map].
+  - rewrite Nat.add_0_r, Nat.eqb_refl. f_equal. f_equal. symmetry. apply map_seq_const.
+    intros i Hi. destruct (Nat.eqb_spec i o); [lia | reflexivity].
+  - rewrite (IH d (S o)) by lia. replace (o =? o + S d)%nat with false by (symmetry; apply Nat.eqb_neq; lia).
+    f_equal. f_equal. apply map_ext. intros i. replace (S o + d)%nat with (o + S d)%nat by lia. reflexivity.
+Qed.
+
+Lemma setNthD_catIndex (dim : nat) (xv : T) (b : Z) : (dim < length (dims xv))%nat ->
+  setNthD (repeat (@DR A 0 0) (length (dims xv))) dim (DR b (b + Z.of_nat (nth dim (dims xv) 0%nat))) =
+  Some (map (fun r : zrange => DR (fst r) (snd r)) (catIndex dim xv b)).
+Proof.
+  intros H. rewrite (setNthD_repeat _ _ _ dim 0%nat H). unfold catIndex. rewrite map_map. f_equal. apply map_ext.
+  intros i. cbn [Nat.add]. destruct (i =? dim)%nat; reflexivity.
+Qed.
+
+Lemma nth_error_catIndex (dim : nat) (xv : T) (b : Z) : (dim < length (dims xv))%nat ->
+  nth_error (map (fun r : zrange => @DR A (fst r) (snd r)) (catIndex dim xv b)) dim =
+  Some (DR b (b + Z.of_nat (nth dim (dims xv) 0%nat))).
+Proof.
+  intros H. unfold catIndex. rewrite map_map.
+  rewrite (map_nth_error _ dim (seq 0 (length (dims xv))) (d := dim)).
+  - rewrite Nat.eqb_refl. reflexivity.
+  - rewrite nth_error_nth' with (d := 0%nat) by (rewrite seq_length; exact H). rewrite seq_nth by exact H. reflexivity.
+Qed.
+
+Lemma zle0_nat (n : nat) : (0 <=? Z.of_nat n) = true.
+Proof. apply Z.leb_le. lia. Qed.
+
+Lemma nth_error_combine {X Y} (l1 : list X) (l2 : list Y) : forall k a b,
+  nth_error (combine l1 l2) k = Some (a, b) -> nth_error l1 k = Some a /\ nth_error l2 k = Some b.
+Proof.
+  revert l2; induction l1 as [|x l1 IH]; intros [|y l2] [|k] a b H; cbn in H; try discriminate.
+  - inversion H; subst. split; reflexivity.
+  - apply IH in H. exact H.
+Qed.
+
+Lemma valOf_lt (h : heap) x (v : T) : valOf h x = Some v -> (x < length h)%nat.
+Proof. unfold valOf. intros H. apply nth_error_Some. destruct (nth_error h x); [discriminate | discriminate]. Qed.
+
+Lemma mapM_valOf_lt (h : heap) xs : forall vs, mapM (valOf h) xs = Some vs -> Forall (fun x => (x < length h)%nat) xs.
+Proof.
+  induction xs as [|x xs IH]; intros vs H; [constructor|]. cbn [mapM] in H.
+  destruct (valOf h x) as [v|] eqn:Ev; cbn [obind] in H; [|discriminate].
+  destruct (mapM (valOf h) xs) as [ys|] eqn:E; cbn [obind] in H; [|discriminate].
+  constructor; [eapply valOf_lt; eauto | eapply IH; eauto].
+Qed.
+
+Lemma cc_loop (cond : denv -> denv -> option dval) (body post : heap -> denv -> denv -> outc)
+      (h : heap) (y : dval) (yn : nat) (xs : list nat) (vs : list T) (dim : nat) :
+  (forall be b i tail, cond (ccEnv y xs dim be b i tail) [] = Some (DB (i <? dlen be))) ->
+  (forall k pre m b tail xk vk, nth_error (combine xs vs) k = Some (xk, vk) -> length pre = k -> tailOK tail ->
+     if (dim <? length (dims vk))%nat then
+       exists tail1, tailOK tail1 /\
+         body h (ccEnv y xs dim (pre ++ DNil :: repeat DNil m) b (Z.of_nat k) tail) [] =
+         DNormal heap h (ccEnv y xs dim (pre ++ encCatEdge (xk, RConcat yn (catIndex dim vk b)) :: repeat DNil m)
+                               (b + Z.of_nat (nth dim (dims vk) 0%nat)) (Z.of_nat k) tail1) []
+     else body h (ccEnv y xs dim (pre ++ DNil :: repeat DNil m) b (Z.of_nat k) tail) [] = DPanic heap) ->
+  (forall be b i tail, post h (ccEnv y xs dim be b i tail) [] = DNormal heap h (ccEnv y xs dim be b (i + 1) tail) []) ->
+  forall rest k pre b tail fuel, skipn k (combine xs vs) = rest -> length pre = k -> tailOK tail -> (length rest < fuel)%nat ->
+  if forallb (fun p : nat * T => (dim <? length (dims (snd p)))%nat) rest then
+    exists b' tail',
+      dforLoop heap fuel cond body post h (ccEnv y xs dim (pre ++ repeat DNil (length rest)) b (Z.of_nat k) tail) [] =
+      DNormal heap h (ccEnv y xs dim (pre ++ map encCatEdge (concatEdges yn dim rest b)) b' (Z.of_nat (k + length rest)) tail') []
+  else
+    dforLoop heap fuel cond body post h (ccEnv y xs dim (pre ++ repeat DNil (length rest)) b (Z.of_nat k) tail) [] = DPanic heap.
+Proof.
+  intros Hc Hb Hp. induction rest as [|[xk vk] rest IH]; intros k pre b tail fuel Hs Hpre Htail Hf.
+  - destruct fuel as [|fuel]; [cbn in Hf; lia|]. cbn [forallb dforLoop length repeat concatEdges map]. rewrite Hc.
+    unfold dlen. rewrite app_nil_r, Hpre, Z.ltb_irrefl, Nat.add_0_r. eauto.
+  - destruct fuel as [|fuel]; [lia|]. cbn [forallb dforLoop length repeat snd]. rewrite Hc.
+    unfold dlen. rewrite app_length. cbn [length]. rewrite repeat_length, Hpre.
+    replace (Z.of_nat k <? Z.of_nat (k + S (length rest))) with true by (symmetry; apply Z.ltb_lt; lia).
+    apply skipn_cons_nth in Hs. destruct Hs as [Hn Hs].
+    pose proof (Hb k pre (length rest) b tail xk vk Hn Hpre Htail) as Hb1.
+    destruct (dim <? length (dims vk))%nat; cbn [andb].
+    + destruct Hb1 as [tail1 [Htail1 Hb1]]. rewrite Hb1, Hp.
+      replace (Z.of_nat k + 1) with (Z.of_nat (S k)) by lia.
+      rewrite concatEdges_cons. cbn [map].
+      set (e := encCatEdge (xk, RConcat yn (catIndex dim vk b))).
+      replace (pre ++ e :: repeat DNil (length rest)) with ((pre ++ [e]) ++ repeat DNil (length rest))
+        by (rewrite <- app_assoc; reflexivity).
+      replace (pre ++ e :: map encCatEdge (concatEdges yn dim rest (b + Z.of_nat (nth dim (dims vk) 0%nat))))
+        with ((pre ++ [e]) ++ map encCatEdge (concatEdges yn dim rest (b + Z.of_nat (nth dim (dims vk) 0%nat))))
+        by (rewrite <- app_assoc; reflexivity).
+      replace (k + S (length rest))%nat with (S k + length rest)%nat by lia.
+      apply IH; auto.
+      * rewrite app_length. cbn. lia.
+      * cbn in Hf. lia.
+    + rewrite Hb1. reflexivity.
+Qed.
+
+Theorem heap_c_Concat_tracked (h : heap) (yn : nat) (xs : list nat) (vs : list T) (dim : nat) fuel depth :
+  mapM (valOf h) xs = Some vs ->
+  existsb (dirtyOf h) xs = false -> existsb (trackedOf h) xs = true -> (length xs < fuel)%nat ->
+  if forallb (fun v : T => (dim <? length (dims v))%nat) vs then
+    exists g l, drun fapp heap (hext rd) c_Concat fuel depth
+                     [DI (Z.of_nat yn); DL (map (fun n => DI (Z.of_nat n)) xs); DI (Z.of_nat dim)] h =
+                DRet heap [DL [DB true; DB false; DL (map encCatEdge (concatEdges yn dim (combine xs vs) 0))]] h g l
+  else drun fapp heap (hext rd) c_Concat fuel depth
+            [DI (Z.of_nat yn); DL (map (fun n => DI (Z.of_nat n)) xs); DI (Z.of_nat dim)] h = DPanic heap.
+Proof.
+  intros Hvs Hd Ht Hfuel.
+  pose proof (mapM_valOf_lt h xs vs Hvs) as Hlt.
+  unfold drun, c_Concat. cbn [pmain dbody plocals dparams dbind]. dxs.
+  rewrite (hext_anyIsBPDirty h xs Hlt). dxs. rewrite Hd. dxs.
+  rewrite (hext_nonIsTracked h xs Hlt). dxs. rewrite Ht. cbn [negb]. dxs.
+  rewrite dlen_map, zle0_nat, Nat2Z.id. dxs.
+  match goal with |- context [dforLoop heap fuel ?c ?b ?p h ?g0 []] =>
+    pose proof (cc_loop c b p h (DI (Z.of_nat yn)) yn xs vs dim) as HL;
+    change g0 with (ccEnv (DI (Z.of_nat yn)) xs dim ([] ++ repeat DNil (length xs)) 0 (Z.of_nat 0) [])
+  end.
+  match type of HL with ?P -> _ => assert (H1 : P) end.
+  { intros be b i tail. unfold ccEnv. cbn [vlookup dlookup String.eqb Ascii.eqb Bool.eqb devalBin]. reflexivity. }
+  specialize (HL H1); clear H1.
+  match type of HL with ?P -> _ => assert (H1 : P) end.
+  { intros k pre m b tail xk vk Hn Hpre Htail.
+    apply nth_error_combine in Hn. destruct Hn as [Hxk Hvk].
+    destruct (mapM_nth _ _ _ Hvs _ _ Hxk) as [v' [Hv' Hval]].
+    assert (v' = vk) by congruence. subst v'.
+    pose proof (valOf_lt h xk vk Hval) as Hxlt.
+    subst k.
+    destruct (dim <? length (dims vk))%nat eqn:Edim.
+    - apply Nat.ltb_lt in Edim.
+      exists [("shape", dnats (dims vk)); ("index", encRanges (catIndex dim vk b))].
+      split; [right; eauto|].
+      destruct Htail as [-> | (s0 & ix0 & ->)]; unfold ccEnv; dxs.
+      all: rewrite !didx_nat, !nth_error_dnats, Hxk; cbn [option_map]; dxs.
+      all: rewrite (hext_Shape h xk vk Hxlt Hval); dxs.
+      all: unfold dnats; dxs; rewrite !dlen_map, zle0_nat, Nat2Z.id; dxs.
+      all: rewrite !didx_nat, !nth_error_dnats, (nth_error_nth' (dims vk) 0%nat Edim); cbn [option_map]; dxs.
+      all: rewrite (setNthD_catIndex dim vk b Edim); dxs.
+      all: rewrite !didx_nat, (nth_error_catIndex dim vk b Edim); dxs.
+      all: rewrite !didx_nat, !nth_error_dnats, Hxk; cbn [option_map]; dxs.
+      all: rewrite setNthD_app; dxs.
+      all: reflexivity.
+    - apply Nat.ltb_ge in Edim.
+      destruct Htail as [-> | (s0 & ix0 & ->)]; unfold ccEnv; dxs.
+      all: rewrite !didx_nat, !nth_error_dnats, Hxk; cbn [option_map]; dxs.
+      all: rewrite (hext_Shape h xk vk Hxlt Hval); dxs.
+      all: unfold dnats; dxs; rewrite !dlen_map, zle0_nat, Nat2Z.id; dxs.
+      all: rewrite !didx_nat, !nth_error_dnats.
+      all: replace (nth_error (dims vk) dim) with (@None nat) by (symmetry; apply nth_error_None; exact Edim).
+      all: cbn [option_map]; dxs; reflexivity. }
+  specialize (HL H1); clear H1.
+  match type of HL with ?P -> _ => assert (H1 : P) end.
+  { intros be b i tail. unfold ccEnv. dxs. reflexivity. }
+  pose proof (mapM_length _ _ _ Hvs) as Hlen.
+  specialize (HL H1 (combine xs vs) 0%nat [] 0 [] fuel eq_refl eq_refl (or_introl eq_refl)); clear H1.
+  rewrite combine_length, Hlen, Nat.min_id in HL. specialize (HL Hfuel).
+  replace (forallb (fun p : nat * T => (dim <? length (dims (snd p)))%nat) (combine xs vs))
+    with (forallb (fun v : T => (dim <? length (dims v))%nat) vs) in HL.
+  2:{ clear -Hlen. revert vs Hlen. induction xs as [|x xs IH]; intros [|v vs] Hlen; cbn in Hlen |- *; try discriminate; try reflexivity.
+      rewrite <- IH by lia. reflexivity. }
+  destruct (forallb (fun v : T => (dim <? length (dims v))%nat) vs).
+  - destruct HL as [b' [tail' HL]]. rewrite HL. unfold ccEnv. dxs. eauto.
+  - rewrite HL. reflexivity.
+Qed.
+
+
+(* the dirty / untracked prologue *)
+Theorem heap_c_Concat_dirty (h : heap) (yv : dval) (xs : list nat) (dimv : dval) fuel depth :
+  Forall (fun x => (x < length h)%nat) xs -> existsb (dirtyOf h) xs = true ->
+  exists g l, drun fapp heap (hext rd) c_Concat fuel depth [yv; DL (map (fun n => DI (Z.of_nat n)) xs); dimv] h =
+              DRet heap [DL [DB false; DB true; DL []]] h g l.
+Proof.
+  intros Hlt Hd. unfold drun, c_Concat. cbn [pmain dbody plocals dparams dbind]. dxs.
+  rewrite (hext_anyIsBPDirty h xs Hlt). dxs. rewrite Hd. dxs. eauto.
+Qed.
+
+Theorem heap_c_Concat_untracked (h : heap) (yv : dval) (xs : list nat) (dimv : dval) fuel depth :
+  Forall (fun x => (x < length h)%nat) xs -> existsb (dirtyOf h) xs = false -> existsb (trackedOf h) xs = false ->
+  exists g l, drun fapp heap (hext rd) c_Concat fuel depth [yv; DL (map (fun n => DI (Z.of_nat n)) xs); dimv] h =
+              DRet heap [DL [DB false; DB false; DL []]] h g l.
+Proof.
+  intros Hlt Hd Ht. unfold drun, c_Concat. cbn [pmain dbody plocals dparams dbind]. dxs.
+  rewrite (hext_anyIsBPDirty h xs Hlt). dxs. rewrite Hd. dxs.
+  rewrite (hext_nonIsTracked h xs Hlt). dxs. rewrite Ht. cbn [negb]. dxs. eauto.
+Qed.
+
+(* the constructor returns the model's context [mkCtx h xs (concatEdges y dim (combine xs vs) 0)] *)
+Theorem heap_c_Concat (h : heap) (yn : nat) (xs : list nat) (vs : list T) (dim : nat) fuel depth :
+  mapM (valOf h) xs = Some vs -> (length xs < fuel)%nat ->
+  (existsb (dirtyOf h) xs = false -> existsb (trackedOf h) xs = true ->
+   Forall (fun v : T => (dim < length (dims v))%nat) vs) ->
+  exists g l, drun fapp heap (hext rd) c_Concat fuel depth
+                   [DI (Z.of_nat yn); DL (map (fun n => DI (Z.of_nat n)) xs); DI (Z.of_nat dim)] h =
+              DRet heap [encCatCtx (mkCtx h xs (concatEdges yn dim (combine xs vs) 0))] h g l.
+Proof.
+  intros Hvs Hfuel Hdim. pose proof (mapM_valOf_lt h xs vs Hvs) as Hlt. unfold mkCtx.
+  destruct (existsb (dirtyOf h) xs) eqn:Hd.
+  - cbn [encCatCtx map]. apply heap_c_Concat_dirty; assumption.
+  - destruct (existsb (trackedOf h) xs) eqn:Ht; cbn [negb encCatCtx map].
+    + pose proof (heap_c_Concat_tracked h yn xs vs dim fuel depth Hvs Hd Ht Hfuel) as H.
+      replace (forallb (fun v : T => (dim <? length (dims v))%nat) vs) with true in H; [exact H|].
+      symmetry. apply forallb_forall. intros v Hv. apply Nat.ltb_lt.
+      exact (proj1 (Forall_forall _ _) (Hdim eq_refl eq_refl) v Hv).
+    + apply heap_c_Concat_untracked; assumption.
+Qed.
+
+(* what the edges are, explicitly: targets in order; operand k slices [base_k, base_k + size_k) along dim and {0,0}
+   elsewhere (catIndex), base_k = the sum of the earlier sizes *)
+Definition catBase (dim : nat) (vs : list T) (b : Z) : Z :=
+  fold_left (fun acc v => acc + Z.of_nat (nth dim (dims v) 0%nat)) vs b.
+
+Lemma concatEdges_nth (yn dim : nat) (l : list (nat * T)) : forall k x v b,
+  nth_error l k = Some (x, v) ->
+  nth_error (concatEdges yn dim l b) k = Some (x, RConcat yn (catIndex dim v (catBase dim (map snd (firstn k l)) b))).
+Proof.
+  induction l as [|[x0 v0] l IH]; intros [|k] x v b H; cbn [nth_error] in H; try discriminate.
+  - inversion H; subst. reflexivity.
+  - rewrite concatEdges_cons. cbn [nth_error firstn map snd]. rewrite (IH k x v _ H). reflexivity.
+Qed.
+
+Lemma concatEdges_targets (yn dim : nat) (xs : list nat) : forall (vs : list T) b, length xs = length vs ->
+  map fst (concatEdges yn dim (combine xs vs) b) = xs.
+Proof.
+  induction xs as [|x xs IH]; intros [|v vs] b H; cbn in H; try discriminate; [reflexivity|].
+  cbn [combine]. rewrite concatEdges_cons. cbn [map fst]. f_equal. apply IH. lia.
+Qed.
+
+Lemma encCatEdge_nth (yn dim : nat) (l : list (nat * T)) k x v b :
+  nth_error l k = Some (x, v) ->
+  nth_error (map encCatEdge (concatEdges yn dim l b)) k =
+  Some (DL [DI (Z.of_nat x); DI 0; encRanges (catIndex dim v (catBase dim (map snd (firstn k l)) b))]).
+Proof. intros H. erewrite map_nth_error by (apply concatEdges_nth; exact H). reflexivity. Qed.
+
+Lemma catIndex_nth (dim : nat) (v : T) (b : Z) i : (i < length (dims v))%nat ->
+  nth_error (catIndex dim v b) i =
+  Some (if (i =? dim)%nat then (b, b + Z.of_nat (nth dim (dims v) 0%nat)) else (0, 0)).
+Proof.
+  intros H. unfold catIndex. erewrite map_nth_error; [reflexivity|].
+  rewrite nth_error_nth' with (d := 0%nat) by (rewrite seq_length; exact H). rewrite seq_nth by exact H. reflexivity.
+Qed.
 
 End HeapBcast.
+
+Print Assumptions heap_r_Broadcast.
+Print Assumptions heap_r_Broadcast_eval_rule.
+Print Assumptions heap_c_Concat_tracked.
+Print Assumptions heap_c_Concat.
+
+(* ---------- concrete runs over the free term algebra ---------- *)
+Definition ex_fapp : string -> list term -> option term := fun _ _ => None.
+
+(* x : [2] broadcast to y : [3;2]; the closure averages the three copies (first loop), where the property-level rule
+   (RedSum) sums them: the two results differ, and the oracle parameter [rd] does not influence the closure *)
+Example bcast_example_lead :
+  let xv := mkT [2]%nat (Vec [Sc (TVal 0 0); Sc (TVal 0 1)]) in
+  let yv := mkT [3; 2]%nat (Vec [Vec [Sc (TVal 0 0); Sc (TVal 0 1)]; Vec [Sc (TVal 0 0); Sc (TVal 0 1)];
+                                  Vec [Sc (TVal 0 0); Sc (TVal 0 1)]]) in
+  let gy := mkT [3; 2]%nat (Vec [Vec [Sc (TGrad 1 0 0); Sc (TGrad 1 0 1)]; Vec [Sc (TGrad 1 0 2); Sc (TGrad 1 0 3)];
+                                  Vec [Sc (TGrad 1 0 4); Sc (TGrad 1 0 5)]]) in
+  let h := [mkNode xv true false None [] None; mkNode yv true false (Some gy) [(0%nat, RBroadcast 1 0)] None] in
+  match drun ex_fapp (@heap term) (hext RedSum) r_Broadcast_closure 10 1 [DI 0; DI 1] h,
+        eval_rule RedAvg h (RBroadcast 1 0), eval_rule RedSum h (RBroadcast 1 0) with
+  | DRet _ [v; DI 0] h' _ _, Ok r, Ok r' => v = embT r /\ h' = h /\ dims r = [2]%nat /\ r <> r'
+  | _, _, _ => False
+  end.
+Proof. vm_compute. repeat split; try reflexivity. discriminate. Qed.
+
+(* x : [2;1] broadcast to y : [2;3]: second loop, AvgAlong(1) then UnSqueeze(1) *)
+Example bcast_example_dims :
+  let xv := mkT [2; 1]%nat (Vec [Vec [Sc (TVal 0 0)]; Vec [Sc (TVal 0 1)]]) in
+  let yv := mkT [2; 3]%nat (Vec [Vec [Sc (TVal 0 0); Sc (TVal 0 0); Sc (TVal 0 0)];
+                                  Vec [Sc (TVal 0 1); Sc (TVal 0 1); Sc (TVal 0 1)]]) in
+  let gy := mkT [2; 3]%nat (Vec [Vec [Sc (TGrad 1 0 0); Sc (TGrad 1 0 1); Sc (TGrad 1 0 2)];
+                                  Vec [Sc (TGrad 1 0 3); Sc (TGrad 1 0 4); Sc (TGrad 1 0 5)]]) in
+  let h := [mkNode xv true false None [] None; mkNode yv true false (Some gy) [(0%nat, RBroadcast 1 0)] None] in
+  match drun ex_fapp (@heap term) (hext RedAvg) r_Broadcast_closure 10 1 [DI 0; DI 1] h,
+        eval_rule RedAvg h (RBroadcast 1 0) with
+  | DRet _ [v; DI 0] h' _ _, Ok r => v = embT r /\ h' = h /\ dims r = [2; 1]%nat
+  | _, _ => False
+  end.
+Proof. vm_compute. repeat split; reflexivity. Qed.
+
+(* outside the hypotheses of the theorem (y has no gradient yet) and nothing to reduce: the closure returns (nil, nil)
+   where the model's rule panics; backward never asks for this (a node's edges run after its gradient is set) *)
+Example bcast_example_nograd :
+  let xv := mkT [2]%nat (Vec [Sc (TVal 0 0); Sc (TVal 0 1)]) in
+  let h := [mkNode xv true false None [] None; mkNode xv true false None [(0%nat, RBroadcast 1 0)] None] in
+  match drun ex_fapp (@heap term) (hext RedAvg) r_Broadcast_closure 10 1 [DI 0; DI 1] h with
+  | DRet _ [DNil; DI 0] _ _ _ => eval_rule RedAvg h (RBroadcast 1 0) = Panic
+  | _ => False
+  end.
+Proof. vm_compute. reflexivity. Qed.
+
+(* Concat of a [2;1] and a [2;2] operand along dim 1: edges to 0 and 1 with ranges {0,0},{0,1} and {0,0},{1,3} *)
+Example concat_example :
+  let av := mkT [2; 1]%nat (Vec [Vec [Sc (TVal 0 0)]; Vec [Sc (TVal 0 1)]]) in
+  let bv := mkT [2; 2]%nat (Vec [Vec [Sc (TVal 1 0); Sc (TVal 1 1)]; Vec [Sc (TVal 1 2); Sc (TVal 1 3)]]) in
+  let h := [mkNode av true false None [] None; mkNode bv false false None [] None] in
+  match drun ex_fapp (@heap term) (hext RedAvg) c_Concat 10 1 [DI 2; DL [DI 0; DI 1]; DI 1] h with
+  | DRet _ [v] h' _ _ =>
+      v = encCatCtx (mkCtx h [0; 1]%nat (concatEdges 2 1 (combine [0; 1]%nat [av; bv]) 0)) /\ h' = h /\
+      v = DL [DB true; DB false; DL [DL [DI 0; DI 0; DL [DR 0 0; DR 0 1]]; DL [DI 1; DI 0; DL [DR 0 0; DR 1 3]]]]
+  | _ => False
+  end.
+Proof. vm_compute. repeat split; reflexivity. Qed.
+
+(* an operand whose rank does not exceed dim: index[dim] panics *)
+Example concat_example_panic :
+  let av := mkT [2]%nat (Vec [Sc (TVal 0 0); Sc (TVal 0 1)]) in
+  let h := [mkNode av true false None [] None] in
+  drun ex_fapp (@heap term) (hext RedAvg) c_Concat 10 1 [DI 1; DL [DI 0]; DI 1] h = DPanic _.
+Proof. vm_compute. reflexivity. Qed.
